@@ -253,6 +253,10 @@ def il_cases(rng=None, n=0):
         cs.append(("g-il-%d" % i, ["type il F"] + ["fwd %d %d" % (rng.randrange(0, 9), rng.randrange(-5, 100)) for _ in range(4)] + ["one %d" % rng.randrange(0, 9)]))
     return cs
 
+def tp_cases(rng=None, n=0):
+    """element type that is trivially destructible but has observable copy/move constructors (comp/holders/tp_part.hpp)"""
+    return [("ex-tp", ["type tp F", "run 5"])] + [("g-tp-%d" % i, ["type tp F", "run %d" % rng.randrange(0, 10**6)]) for i in range(n)]
+
 def thr_cases(rng=None, n=0):
     """fault injection at every element construction point (comp/holders/throw_part.hpp)"""
     cs = [("ex-thr", ["type thr F", "sweep 5 6"])]
@@ -270,6 +274,8 @@ def corpus(exp_copy_assign=True):
     # seeded change caught in round 2 (follow-up 2): unique_ptr::reset destroys the old pointee before storing the new pointer
     cs.append(("corpus-uptr-reentrant-reset", ["type uptrre F", "make 0 5", "reset 0", "make 1 6", "resetnew 1 7", "get 1",
                                                  "make 2 8", "massign 0 2", "reset 2", "reset 0", "resetnew 1 9", "del 1"]))
+    # seeded change caught in round 2 (follow-up 3): optional(const optional&) copies the storage bytes for trivially destructible T
+    cs.append(("corpus-tp-bytewise-copy", ["type tp F", "run 5"]))
     cs.append(("corpus-thr-sweep", ["type thr F", "sweep 5 6"]))
     # seeded change caught in round 2: manual_box::initialize with T{args...} (vector<int>(3, 7) became {3, 7})
     cs.append(("corpus-il-initialize-braces", ["type il F", "fwd 3 7", "one 3"]))
